@@ -395,6 +395,35 @@ pub fn catalogue(rng: &mut Rng) -> Vec<Scenario> {
         v.push(Scenario { name: "delete-vs-store-of-target".into(), events: ev.clone(), filters: vec![f.clone()], prepopulate: vec![0, 1, 2, 3], ops: vec![Opk::Store(n - 1), Opk::Store(n - 2)] });
         v.push(Scenario { name: "store-of-target-vs-delete".into(), events: ev.clone(), filters: vec![f.clone()], prepopulate: vec![0, 1, 2, 3], ops: vec![Opk::Store(n - 2), Opk::Store(n - 1)] });
         v.push(Scenario { name: "delete-vs-get-of-target".into(), events: ev.clone(), filters: vec![f.clone()], prepopulate: vec![0, 1, 2, 3, n - 2], ops: vec![Opk::Store(n - 1), Opk::Get(target.sem.id), Opk::Find(0)] });
+        // the same with a request of ANOTHER author (to be refused when the target is there, and harmless to the target
+        // either way), alone and mixed with a target of its own
+        {
+            let mut ev = base(rng);
+            let target = mk(rng, 0, 1, 140, vec![]);
+            let own = mk(rng, 1, 1, 141, vec![]);
+            let fdel = mk(rng, 1, 5, 200, vec![vec!["e".into(), hex(&target.sem.id)]]);
+            let mdel = mk(rng, 1, 5, 201, vec![vec!["e".into(), hex(&own.sem.id)], vec!["e".into(), hex(&target.sem.id)]]);
+            ev.push(own);
+            ev.push(target.clone());
+            ev.push(fdel);
+            ev.push(mdel);
+            let n = ev.len();
+            let f = SemFilter { authors: vec![author(0), author(1)], kinds: vec![1, 5], ..SemFilter::empty() };
+            v.push(Scenario { name: "foreign-delete-vs-store-of-target".into(), events: ev.clone(), filters: vec![f.clone()], prepopulate: vec![0, 1, 2, 3], ops: vec![Opk::Store(n - 2), Opk::Store(n - 3)] });
+            v.push(Scenario { name: "store-of-target-vs-foreign-delete".into(), events: ev.clone(), filters: vec![f.clone()], prepopulate: vec![0, 1, 2, 3], ops: vec![Opk::Store(n - 3), Opk::Store(n - 2), Opk::Get(target.sem.id)] });
+            v.push(Scenario { name: "store-of-target-vs-mixed-delete".into(), events: ev.clone(), filters: vec![f.clone()], prepopulate: vec![0, 1, 2, 3, n - 4], ops: vec![Opk::Store(n - 3), Opk::Store(n - 1), Opk::Find(0)] });
+            v.push(Scenario { name: "mixed-delete-vs-store-of-target".into(), events: ev.clone(), filters: vec![f.clone()], prepopulate: vec![0, 1, 2, 3, n - 4], ops: vec![Opk::Store(n - 1), Opk::Store(n - 3)] });
+            // address form: author 1 names author 0's replaceable address while author 0 stores there
+            let fadel = mk(rng, 1, 5, 200, vec![vec!["a".into(), format!("10002:{}:", hex(&author(0)))]]);
+            let newer = mk(rng, 0, 10002, 150, vec![]);
+            let mut ev2 = base(rng);
+            ev2.push(fadel);
+            ev2.push(newer);
+            let n2 = ev2.len();
+            let f2 = SemFilter { authors: vec![author(0), author(1)], kinds: vec![10002, 5], ..SemFilter::empty() };
+            v.push(Scenario { name: "foreign-addr-delete-vs-store-at-address".into(), events: ev2.clone(), filters: vec![f2.clone()], prepopulate: vec![0, 1, 2, 3], ops: vec![Opk::Store(n2 - 2), Opk::Store(n2 - 1)] });
+            v.push(Scenario { name: "store-at-address-vs-foreign-addr-delete".into(), events: ev2, filters: vec![f2], prepopulate: vec![0, 1, 2, 3], ops: vec![Opk::Store(n2 - 1), Opk::Store(n2 - 2), Opk::Find(0)] });
+        }
         // address deletion vs a store at that address
         let adel = mk(rng, 0, 5, 200, vec![vec!["a".into(), format!("10002:{}:", hex(&author(0)))]]);
         let newer = mk(rng, 0, 10002, 150, vec![]);
@@ -957,8 +986,14 @@ pub fn leg_stress(rep: &mut Report, args: &Args) {
         // deletion requests (own) for two plain events and one address
         let d1 = mk(&mut rng, 0, 5, 300, vec![vec!["e".into(), hex(&events[0].sem.id)], vec!["e".into(), hex(&events[2].sem.id)]]);
         let d2 = mk(&mut rng, 1, 5, 115, vec![vec!["a".into(), format!("30023:{}:x", hex(&author(1)))]]);
+        // a request naming only another author's event, and one mixing an own target with a foreign one: whether they
+        // are refused depends on whether the foreign target is stored at their commit position
+        let d3 = mk(&mut rng, 1, 5, 310, vec![vec!["e".into(), hex(&events[4].sem.id)]]);
+        let d4 = mk(&mut rng, 0, 5, 320, vec![vec!["e".into(), hex(&events[6].sem.id)], vec!["e".into(), hex(&events[1].sem.id)]]);
         events.push(d1);
         events.push(d2);
+        events.push(d3);
+        events.push(d4);
         let filters = vec![
             SemFilter { tags: vec![("t".into(), vec!["even".into()])], ..SemFilter::empty() },
             SemFilter { authors: vec![author(0)], kinds: vec![10002], ..SemFilter::empty() },
@@ -1493,6 +1528,124 @@ pub fn run(args: &Args) -> Report {
             }
         }
     }
+    rep
+}
+
+// ------------------------------------------------------------------------------------------ C10 under concurrency
+
+/// C10's clause on the schedules of the catalogue in which a deletion request names another author's event or
+/// address while that author stores it: whatever the interleaving, an event of the other author whose store returned
+/// an offset is retrievable afterwards and carries no deletion marker, and the other author's address has none.
+fn judge_c10(rep: &mut Report, sc: &Scenario, live: &Live, recs: &[Rec], point: &str, blocked: bool) {
+    let mut h = vec![];
+    h.extend_from_slice(sc.name.as_bytes());
+    h.extend_from_slice(point.as_bytes());
+    h.push(blocked as u8);
+    rep.eval(fnv(&h), true);
+    rep.count("schedules_explored");
+    let desc = |recs: &[Rec]| recs.iter().map(|r| format!("T{} {}[{}..{}] -> {:?}", r.thread, r.op.kind(), r.call, r.ret, r.res)).collect::<Vec<_>>().join("; ");
+    let mut stored: BTreeSet<usize> = sc.prepopulate.iter().cloned().collect();
+    for r in recs {
+        if let (Opk::Store(i), Res::Store(Outcome::Ok(_))) = (&r.op, &r.res) {
+            let _ = stored.insert(*i);
+        }
+    }
+    let store = &live.ctx.store;
+    let rp = json!({"kind":"c10-schedule","scenario":sc.name,"point":point});
+    for (di, d) in sc.events.iter().enumerate() {
+        if d.sem.kind != 5 || !sc.ops.iter().any(|o| matches!(o, Opk::Store(i) if *i == di)) {
+            continue;
+        }
+        for tag in d.sem.tags.iter().filter(|t| t.len() >= 2) {
+            if tag[0] == "e" {
+                let ti = match sc.events.iter().position(|e| hex(&e.sem.id) == tag[1]) {
+                    Some(ti) => ti,
+                    None => continue,
+                };
+                let t = &sc.events[ti];
+                if t.sem.pubkey == d.sem.pubkey || !stored.contains(&ti) {
+                    continue;
+                }
+                rep.count("foreign_targets_whose_store_succeeded");
+                let id = Id::from_bytes(t.sem.id);
+                let there = matches!(store.get_event_by_id(id), Ok(Some(e)) if e.as_bytes() == t.bytes.as_slice());
+                let marked = matches!(store.event_is_deleted(id), Ok(true));
+                if !there || marked {
+                    rep.finding(
+                        &format!("concurrent-deletion-request-affected-other-author:{}", if !there { "unretrievable" } else { "marker" }),
+                        &format!("scenario {} with A paused at {point} (others {}): event {} of another author was stored successfully, yet after the request of {} it is retrievable={there} marked-deleted={marked}. Observed: {}", sc.name, if blocked { "blocked" } else { "ran" }, t.short(), hex(&d.sem.pubkey[..2]), desc(recs)),
+                        rp.clone(),
+                    );
+                }
+            } else if tag[0] == "a" {
+                let parts: Vec<&str> = tag[1].splitn(3, ':').collect();
+                if parts.len() != 3 || parts[1] == hex(&d.sem.pubkey) {
+                    continue;
+                }
+                let kind: u16 = match parts[0].parse() {
+                    Ok(k) => k,
+                    Err(_) => continue,
+                };
+                let holder = sc.events.iter().enumerate().filter(|(i, e)| stored.contains(i) && e.sem.kind == kind && hex(&e.sem.pubkey) == parts[1] && addr_of(&e.sem).map(|a| a.d == parts[2].as_bytes()).unwrap_or(false)).max_by_key(|(_, e)| (e.sem.created_at, std::cmp::Reverse(e.sem.id)));
+                if let Some((_, t)) = holder {
+                    rep.count("foreign_addresses_with_a_stored_holder");
+                    let id = Id::from_bytes(t.sem.id);
+                    let there = matches!(store.get_event_by_id(id), Ok(Some(e)) if e.as_bytes() == t.bytes.as_slice());
+                    let addr = pocket_types::Addr { kind: kind.into(), author: pocket_types::Pubkey::from_bytes(t.sem.pubkey), d: parts[2].as_bytes().to_vec() };
+                    let marked = !matches!(store.naddr_is_deleted_asof(&addr), Ok(None));
+                    if !there || marked {
+                        rep.finding(
+                            &format!("concurrent-deletion-request-affected-other-author:{}", if !there { "address-holder-unretrievable" } else { "address-marker" }),
+                            &format!("scenario {} with A paused at {point}: holder {} of another author's address retrievable={there}, address marked={marked}. Observed: {}", sc.name, t.short(), desc(recs)),
+                            rp.clone(),
+                        );
+                    }
+                }
+            }
+        }
+    }
+}
+
+pub fn run_c10(args: &Args) -> Report {
+    let mut rep = Report::new("C10", &args.leg(), &args.tier(), args.seed());
+    install_handler();
+    JITTER_US.store(0, Ordering::Relaxed);
+    let mut rng = Rng::new(args.seed() ^ 0xC14);
+    let scs = catalogue(&mut rng);
+    for (si, sc) in scs.iter().enumerate().filter(|(_, sc)| sc.name.contains("foreign") || sc.name.contains("mixed-delete")) {
+        let (live, recs, census, _, hung) = match run_scheduled(sc, None, &format!("c10s{si}_census")) {
+            Some(x) => x,
+            None => {
+                rep.inconclusive.push(format!("scenario {} could not be set up", sc.name));
+                continue;
+            }
+        };
+        if hung {
+            rep.inconclusive.push(format!("scenario {} made no progress (hangs are C14's subject)", sc.name));
+            break;
+        }
+        judge_c10(&mut rep, sc, &live, &recs, "census(no pause)", false);
+        teardown(live);
+        // every hit of every point of the paused operation, both orders being separate scenarios of the catalogue
+        for (pi, (pname, pocc)) in census.iter().enumerate() {
+            let (live, recs, _, blocked, hung) = match run_scheduled(sc, Some((pname.to_string(), *pocc)), &format!("c10s{si}_p{pi}")) {
+                Some(x) => x,
+                None => continue,
+            };
+            if hung {
+                rep.inconclusive.push(format!("scenario {} paused at {pname}#{pocc} made no progress (hangs are C14's subject)", sc.name));
+                pocket_db::verif::set_point_handler(None);
+                return rep;
+            }
+            rep.count(if blocked { "schedules_where_B_blocked_behind_A" } else { "schedules_where_B_ran_while_A_was_parked" });
+            judge_c10(&mut rep, sc, &live, &recs, &format!("{}#{}", pname, pocc), blocked);
+            teardown(live);
+        }
+    }
+    pocket_db::verif::set_point_handler(None);
+    rep.require("schedules_where_B_blocked_behind_A", "no schedule in which the second operation blocked behind the paused one");
+    rep.require("foreign_targets_whose_store_succeeded", "no schedule in which the other author's event was stored");
+    rep.require("foreign_addresses_with_a_stored_holder", "no schedule with a holder at the other author's address");
     rep
 }
 
